@@ -207,6 +207,8 @@ func (ex *Exec) verifyFunc(fn *ssa.Function, caseParam string, caseLit Expr) *Fu
 			st.Assume(ex.evalBool(cl.E, env))
 		}
 	}
+	ex.entryLocks = nil
+	ex.initLocks(st, fn, args)
 	entry := st.Clone()
 	st.Tracef("entry %s", shortKey(key))
 
@@ -244,6 +246,7 @@ func (ex *Exec) verifyFunc(fn *ssa.Function, caseParam string, caseLit Expr) *Fu
 			continue
 		}
 		nret++
+		ex.releasedAtReturn(o.St, fn.Pos())
 		penv := &CEnv{ex: ex, st: o.St, old: entry, vars: map[string]TV{}, fn: fn}
 		for k, v := range env.vars {
 			penv.vars[k] = v
